@@ -418,7 +418,8 @@ class Generated:
         self.fatal = None       # first structural lost anchor (the unit is undecided)
         self.lost = []          # annotations whose anchor was lost (id, dependent property tags)
         self.shapes = {}        # rel -> {fn@k: dict(unannotated_loops, unannotated_closures)}
-        self.clock_uses = []    # syntactic side condition of C07: uses of a clock reading outside the deadline test
+        self.clock_uses = []
+        self.hash_order_uses = []   # syntactic side condition of C07: iteration over a HashMap / HashSet    # syntactic side condition of C07: uses of a clock reading outside the deadline test
 
     def fn_of(self, o):
         """function name a generated line belongs to (from its origin)"""
@@ -525,6 +526,20 @@ def build_unit(unit):
                 if re.search(r'let elapsed__v = \w+\.elapsed\(\)(?:\.as_secs_f64\(\))?; if elapsed__v > (?:self\.)?timeout \{', code):
                     continue
                 g.clock_uses.append(dict(file=rel, line=lineno, text=code.strip()))
+        # C07 side condition no. 2 (syntactic): iteration over a hash container.  std's HashMap / HashSet iterate in an order that
+        # depends on per-instance random hash keys, so any result derived from that order differs between two identically seeded
+        # planners.  Lookups / inserts are fine; `iter`, `keys`, `values`, `drain`, `into_iter`, `for .. in container` are reported.
+        code_all = "".join(ln.split('//')[0].rstrip('\n') + "\n" for ln in lines2)
+        hnames = set(re.findall(r'\b(?:let\s+(?:mut\s+)?)?(\w+)\s*(?::\s*(?:std::collections::)?Hash(?:Set|Map)<[^=;]*)?=\s*[^;]*?\bHash(?:Set|Map)\b', code_all))
+        hnames |= set(re.findall(r'\b(\w+)\s*:\s*(?:std::collections::)?Hash(?:Set|Map)<', code_all))
+        hnames |= set(m for m in re.findall(r'\blet\s+(?:mut\s+)?(\w+)[^;=]*=[^;]*collect::<\s*(?:std::collections::)?Hash(?:Set|Map)', code_all))
+        hnames -= {"let", "mut", "self"}
+        if hnames:
+            alt = "|".join(sorted(re.escape(n) for n in hnames))
+            rx_use = re.compile(r'\b(?:self\.)?(?:%s)\s*\.\s*(?:iter|iter_mut|into_iter|keys|values|values_mut|drain|into_keys|into_values)\s*\(|\bin\s+&?(?:mut\s+)?(?:self\.)?(?:%s)\b' % (alt, alt))
+            for mm in rx_use.finditer(code_all):
+                li = code_all.count("\n", 0, mm.start())
+                g.hash_order_uses.append(dict(file=rel, line=keep[li][0], text=" ".join(mm.group(0).split())))
         stext = "".join(lines2)
         sorig = []
         for (lineno, _), ln in zip(keep, lines2):
